@@ -347,7 +347,13 @@ class CounterToken(Token, FileSystemEventHandler):
                         "Not reading token file [%f <= %f]", timestamp, self.timestamp
                     )
 
-                total = int(self.infopath.read_text())
+                try:
+                    total = int(self.infopath.read_text())
+                except ValueError:
+                    # Another process is rewriting the file (it is truncated
+                    # first): a new notification follows once it is written
+                    logger.debug("Token information is being rewritten")
+                    return
                 delta = total - self.total
                 self.total = total
                 self.available += delta
